@@ -162,6 +162,7 @@ var preSyms = []sym{
 	{"CONNECT(will)", func() *snref.Pkt { return snref.Connect("cl", 60, true, true) }},
 	{"CONNECT(ka=0)", func() *snref.Pkt { return snref.Connect("cl", 0, false, false) }},
 	{"CONNECT(will,ka=65535)", func() *snref.Pkt { return snref.Connect("c2", 65535, true, false) }},
+	{"CONNECT(proto=2)", func() *snref.Pkt { p := snref.Connect("cl", 60, false, true); p.ProtoID = 2; return p }},
 	{"AUTH(u1:p1)", func() *snref.Pkt { return snref.AuthPlain("u1", []byte("p1")) }},
 	{"AUTH(u2:p2)", func() *snref.Pkt { return snref.AuthPlain("u2", []byte("p2")) }},
 	{"AUTH(malformed)", func() *snref.Pkt { return &snref.Pkt{Type: snref.AUTH, Name: "PLAIN", Data: []byte("\x00only-two")} }},
